@@ -180,13 +180,23 @@ def fit_cases(ctx, rs, nfits):
             kw["max_iter"] = 2
             if d > 2:
                 X = X[:, :2]; d = 2
-        decorated = fam in ("LinearModel", "MLPModel", "CategoricalModel") and rs.rand() < 0.5
+        decorated = fam in ("LinearModel", "MLPModel", "CategoricalModel") and rs.rand() < 0.7
         inp = {"estimator": fam, "params": {k: v for k, v in kw.items()}, "X": X.tolist(), "decorated": bool(decorated)}
         model = cls(**kw)
         ml, cl, factor = [], [], 1.0
         if decorated:
             perm = rs.permutation(n)
-            ml, cl, factor = [(int(perm[0]), int(perm[1]))], [(int(perm[2]), int(perm[3]))], float(rs.choice([0.5, 2.0]))
+            factor = float(rs.choice([0.5, 2.0]))
+            shape = it % 4
+            if shape == 0:      # disjoint pairs
+                ml, cl = [(int(perm[0]), int(perm[1]))], [(int(perm[2]), int(perm[3]))]
+            elif shape == 1:    # a sample shared by several pairs of the same kind, in the same position (star)
+                ml, cl = [(int(perm[0]), int(perm[1])), (int(perm[0]), int(perm[2]))], [(int(perm[3]), int(perm[1])), (int(perm[2]), int(perm[1]))]
+            elif shape == 2:    # chains and a repeated pair
+                ml, cl = [(int(perm[0]), int(perm[1])), (int(perm[1]), int(perm[2]))], [(int(perm[0]), int(perm[3])), (int(perm[0]), int(perm[3]))]
+            else:               # star of cannot-links only
+                ml, cl = [], [(int(perm[0]), int(perm[1])), (int(perm[0]), int(perm[2])), (int(perm[0]), int(perm[3]))]
+            ctx.count(f"mlcl_shape:{shape}")
             try:
                 model = gemclus.add_mlcl_constraint(model, ml, cl, factor)
             except ValueError:
